@@ -70,7 +70,7 @@ package tcp
 //@ pred iphdr(ip *layers.IPv4, r *scan.Request, id0 int) = fresh(ip) && ip.SrcIP == r.SrcIP && ip.DstIP == r.DstIP && ip.Protocol == 6 && ip.Version == 4 && ip.Id == 1 + id0 && 1 <= ip.Id && ip.Id <= 65535 && ip.TTL == 64
 //@ pred ethhdr(e *layers.Ethernet, r *scan.Request) = fresh(e) && e.SrcMAC == r.SrcMAC && e.DstMAC == r.DstMAC && e.EthernetType == 2048
 //@ func (*PacketFiller).Fill
-//@   props C05 C11 C17 C01 C02 C19 C07
+//@   props C05 C11 C17 C01 C02 C19 C07 C13
 //@   observe rand.Intn, rand.Uint32, SetNetworkLayerForChecksum, gopacket.SerializeLayers
 //@   entry row cksumerr: [call rand.Intn(65535) as (id0) ; call rand.Intn(28232) as (sp0) ; call rand.Uint32() as (sq) ; call SetNetworkLayerForChecksum(bind_ck, bind_n) as (ce)] when ce != nil && ret == ce -> exit
 //@   entry row vpn:   [call rand.Intn(65535) as (id0) ; call rand.Intn(28232) as (sp0) ; call rand.Uint32() as (sq) ; call SetNetworkLayerForChecksum(bind_ck, bind_n) as (ce) ;
@@ -128,7 +128,7 @@ package tcp
 //@   ensures f.vpnMode == vpnMode
 // constructor: a zero filler, then the options applied in order, nothing else
 //@ func NewPacketFiller
-//@   props C05 C01 C02 C11 C17 C19 C07
+//@   props C05 C01 C02 C11 C17 C19 C07 C13
 //@   observe o
 //@   entry row init:  [] -> loop 0
 //@   loop 0 row apply: [call o(bind_x)] when fresh(x) -> continue
@@ -199,7 +199,7 @@ package tcp
 
 // the scan method's packet stream is its packet source's, its results are the result channel's
 //@ func (*ScanMethod).Packets
-//@   props C01 C07 C05 C11 C13 C16 C19 C12
+//@   props C01 C07 C05 C11 C13 C16 C19 C12 C02 C17
 //@   observe Packets
 //@   entry row forward: [call Packets(recv.PacketSource, _, _) as (c)] when ret == c -> exit
 //@ func (*ScanMethod).Results
